@@ -49,6 +49,9 @@ class Monitor:
         self.watch_src = True
         self.emulate_flock = False
         self.listdir_sort = None
+        # True: an injected mkdir failure is raised by makedirs / Path.mkdir itself (as the model's MkDirs does) even when
+        # the directory exists; False: it is raised by the innermost os.mkdir, where exist_ok=True swallows it
+        self.mkdir_fault_direct = True
 
     def rel(self, path):
         try:
@@ -170,6 +173,8 @@ def _mkdir(path, *a, **k):
 def _makedirs(name, *a, **k):
     inj = _emit("mkdirs", name)
     if inj:
+        if MON is not None and MON.mkdir_fault_direct:
+            _raise(inj, name)
         _tls.mkdir_fault = inj
     try:
         with _Suppress():
@@ -181,6 +186,8 @@ def _makedirs(name, *a, **k):
 def _path_mkdir(self, *a, **k):
     inj = _emit("mkdirs", self)
     if inj:
+        if MON is not None and MON.mkdir_fault_direct:
+            _raise(inj, self)
         _tls.mkdir_fault = inj
     try:
         with _Suppress():
